@@ -40,7 +40,7 @@ def run_action_open(cfg: OpenActionConfig) -> int:
         # Is this word a ZID that should be considered as a target? We consider
         # any ZID that is NOT the primary ZID to be targetable. In *.zoq files,
         # every ZID is targetable.
-        zid_word = word.strip("[]")
+        zid_word = _trim_to_brackets(word).strip("[]")
         is_targetable_zid = zdt.is_zid(zid_word) and (
             found_primary_zid or is_zoq_file or i == 0
         )
@@ -56,7 +56,7 @@ def run_action_open(cfg: OpenActionConfig) -> int:
             or is_url_link
             or is_cite_key_link
         ):
-            all_targets_in_line.append(word)
+            all_targets_in_line.append(_trim_to_brackets(word))
         elif is_targetable_zid:
             all_targets_in_line.append(zid_word)
         elif zdt.is_zid(zid_word):
@@ -126,6 +126,17 @@ def _open_link(cfg: OpenActionConfig, target: str) -> int:
         return _open_cite_key_link(cfg.zettel_dir, target)
     else:
         return _open_zid_link(cfg, target)
+
+
+def _trim_to_brackets(word: str) -> str:
+    """Drops whatever surrounds the bracketed part of a link word.
+
+    Quotes or angle brackets around a link (e.g. '"[[page]]"') are not part of
+    the link.
+    """
+    left = word.find("[")
+    right = word.rfind("]")
+    return word[left : right + 1] if 0 <= left < right else word
 
 
 def _is_local_link(word: str) -> bool:
